@@ -1,11 +1,18 @@
 """C11 - player state is isolated per player and restored on their next turn.
 
-Implementation side: real multi-player games (MpfFakeGameTestCase scaffolding, 1-4 players) with a game mode that
-holds a persisting counter, a non-persisting counter, a persisting accrual and a persisting sequence; player variables
-set directly (`player[x] = v`) and through variable_player (add / set, int / string); extra balls; early game end.
+Implementation side: real multi-player games (MpfFakeGameTestCase scaffolding, 1-4 players) with a game mode - started
+with every ball or only by request (configuration choice) - that holds a persisting counter, a non-persisting counter, a
+persisting accrual (list-valued) and sequence with reset / restart events, shots with a profile, a shot group, a
+persisted enable flag, two achievements and a timer (start / stop / timed pause / pause / add / subtract / jump / reset /
+restart, optionally running from the start and with an end value); player variables set through Player.__setitem__ and
+Player.__setattr__ and through variable_player (add / set, int / string, explicit `player:` targets, add_machine /
+set_machine); extra balls; early game end; late joins; virtual time passes after every op and in explicit waits, with
+turn changes placed inside the timer's pause windows.
 Every `player_<var>` event is captured with its arguments; every player's vars dict is read after every op.
-Model side: MpfVerif.Model.Player (per-player dictionaries, device pointer) through the compiled driver drv_c11.
-Oracle (independent of the model): per-player shadow dictionaries kept by the harness, device snapshots per player.
+Model side: MpfVerif.Model.Player (per-player dictionaries, device pointer, device-local timer state, machine
+variables) through the compiled driver drv_c11.
+Oracle (independent of the model): per-player shadow dictionaries kept by the harness, device snapshots per player,
+object identity of every mutable state object (incl. the accrual's list) across players.
 """
 import gc
 
@@ -20,30 +27,49 @@ LEAN_MODULES = ["MpfVerif.Props.C11"]
 PROPS_FILE = "MpfVerif/Props/C11.lean"
 GEN = []
 MANIFEST = {
-    "text": "Proof on a Lean model of the player store (one variable dictionary per player, Player.__setattr__ with its change event) and of an arbitrary list of persisting game-mode devices, each abstractly given by its player-variable key, fresh state, load rule and reaction to control events, which only point into the current player's dictionary between mode start and mode stop: every request (variable set/add, any device control event, shot-group rotation, player add, ball drain with or without extra ball) leaves the whole dictionary of every player who is not up unchanged, single step and over whole histories; when a ball starts every device presents load(state stored under its key by the player now up) or its fresh state - one theorem over the device list, keys pairwise distinct; a new game / an added player starts from the configured initial values and fresh device states regardless of what an earlier game left; a variable assignment emits exactly one event with value, previous value, change and the owner's player number iff it changed or is new. The model is instantiated with the device kinds of the property (logic-block counter, shot and profile state, shot group rotation, persisted enable flag, achievements with and without restart-on-next-ball, timer ticks) and tied to player.py / logic_blocks.py / shot.py / shot_group.py / enable_disable_mixin.py / achievement.py / timer.py / game.py by a correspondence run on real 1-4 player games (events with arguments, every player's dictionary incl. every device key after every op); per-player shadow dictionaries and shadow device states are kept independently by the harness.",
-    "note": "Trusted: Lean kernel + standard axioms; the hand-written Model/Player.lean (validated only by the differential run; nothing is machine-translated); the concrete load/act rules of the device kinds in the driver are validated by correspondence, the theorems hold for any such rules. Values in the model are immutable, so sharing of a mutable state object between players cannot be expressed there: on the implementation it is sampled (object identity of logic-block state objects and achievement entries of different players). Accruals, sequences and the non-persisting counter are checked by the oracle only (their values are lists / not stored). Timer ticks live in a player variable but restart from start_value with every ball (timer.py device_loaded_in_mode): modelled as a constant load rule. Shows of shots/achievements, variable_player's explicit `player:` target and float variables are outside the model.",
-    "technique": "Lean 4 theorems (frame lemmas over list updates, a fold lemma over the device list, induction over the op list) on a hand model + differential correspondence and independent shadow-state oracle on real multi-player games",
+    "text": "Proof on a Lean model of the player store (one variable dictionary per player, Player.__setattr__ with its change event), of machine variables, and of an arbitrary list of persisting game-mode devices, each abstractly given by its player-variable key, fresh state, load rule, reaction to control events, reaction to the passing of one time unit and device-local state (for a timer: running, time to the next tick, time to the end of a timed pause), which only point into the current player's dictionary between mode start and mode stop: every request (variable set/add, any device control event, shot-group rotation, the passing of any amount of time, machine-variable set/add, player add, mode stop/start, ball drain with or without extra ball) leaves the whole dictionary of every player who is not up unchanged, single step and over whole histories - the one request that is meant to write to somebody else, a variable_player entry with an explicit `player:`, changes exactly the named player and its event carries that player's number; while no game mode runs the passing of time changes nothing at all and after a stop request / game end / a drain without automatic restart nothing points into any player (a timer in a timed pause cannot come back bound to the previous player); when a ball starts - or when the mode is started by request at any later time - every device presents load(state stored under its key by the player now up) or its fresh state - one theorem over the device list, keys pairwise distinct; a new game / an added player starts from the configured initial values and fresh device states regardless of what an earlier game left; machine-scope entries touch no player and nothing else touches machine variables; a variable assignment emits exactly one event with value, previous value, change and the owner's player number iff it changed or is new. The model is instantiated with the device kinds of the property (logic-block counter, accrual with its list-valued progress, sequence, each with reset/restart; shot and profile state, shot group rotation, persisted enable flag, achievements with and without restart-on-next-ball, a timer with start/stop/timed pause/pause/add/subtract/jump/reset/restart, start_running and end value) and tied to player.py / logic_blocks.py / shot.py / shot_group.py / enable_disable_mixin.py / achievement.py / timer.py / variable_player.py / game.py by a correspondence run on real 1-4 player games in virtual time on a 1/8 s grid (events with arguments, every player's dictionary incl. every device key, the timer's running flag and the machine variable after every op; turn changes inside pause windows; modes that start with the ball and modes started by request); per-player shadow dictionaries and shadow device states are kept independently by the harness, and object identity of every mutable per-player state object (logic-block states, the accrual's list, achievement entries) is compared across players after every op.",
+    "note": "Trusted: Lean kernel + standard axioms; the hand-written Model/Player.lean (validated only by the differential run; nothing is machine-translated); the concrete load/act/tick rules of the device kinds in the driver are validated by correspondence, the theorems hold for any such rules. Values in the model are immutable copies, so sharing of a mutable state object between players cannot be expressed there: on the implementation it is checked by object identity after every op. The own-turn behaviour of timer, accrual and sequence is judged by the model comparison only (the oracle adopts what the player who is up has stored); isolation, restore, fresh start and event arguments are judged by the oracle. Timer ticks live in a player variable but restart from start_value with every mode start (timer.py device_loaded_in_mode): modelled as a constant load rule. A held queue event during a turn change is modelled as instantaneous (the harness lets the extra time unit pass before it observes). Outside the model: ball holds and multiball locks (per-player locked-ball counts; they need ball devices), achievement groups, score queues (delayed adds block the ball end), shows of shots/achievements, float variables, tick-interval changes and count-down timers, variable_player conditions / blocks / subscriptions, the player monitor (compared with the events, counted only).",
+    "technique": "Lean 4 theorems (frame lemmas over list updates, a fold lemma over the device list, induction over the op list) on a hand model + differential correspondence in virtual time and independent shadow-state / object-identity oracle on real multi-player games",
     "translated": False,
 }
-RULE = ("a case = initial player_vars (int and string), balls per game 1-3, counter goal 2-4 + 10-60 ops (start game, add "
-        "player, control events of a persisting counter, three shots with a 3-state profile (hit / reset), shot group "
-        "rotation, a persisted enable flag (enable / disable), two achievements (enable / start / complete / stop / "
-        "disable / reset), a timer (add / jump), accrual and sequence steps, direct set of int/str/mixed-type variables, "
-        "variable_player add/set, extra ball award, ball drain, early game end, second game). non-trivial = at least two "
-        "players and at least four ball starts; distinct = canonical JSON of (config, ops)")
+RULE = ("a case = initial player_vars (int and string), balls per game 1-3, counter goal 2-4, game mode started with every ball "
+        "or only by request, timer running from the start or not, with or without end value, player monitor on/off + 10-60 ops "
+        "(start game, add player, control events of a persisting counter, an accrual and a sequence (steps, reset, restart), "
+        "three shots with a 3-state profile (hit / reset), shot group rotation, a persisted enable flag, two achievements "
+        "(enable / start / complete / stop / disable / reset), a timer (add / jump / subtract / start / stop / timed pause / "
+        "pause / reset / restart), waits of 1-24 time units, direct set of int/str/mixed-type variables by item and by "
+        "attribute, variable_player add/set, with explicit player 1-4 (existing or not), add_machine/set_machine, extra "
+        "ball award, ball drain (plain, or with a mode start request at one of nine lifecycle events, optionally holding "
+        "the queue event), mode stop/start requests, turn changes inside the timer's pause window followed by waits, early "
+        "game end, second game). non-trivial = at least two players and at least four ball starts; distinct = canonical "
+        "JSON of (config, ops)")
 TRUSTED = ["modelled, not verified: the game mode's ball/turn rotation, mode start/stop at ball start/end, event queue "
-           "ordering (events are compared in the order the implementation posts them), Python object identity, shows",
+           "ordering (events are compared in the order the implementation posts them), Python object identity, shows; "
+           "the asyncio clock (time is an input of the model: one unit = 1/8 s, deadlines are float-exact on that grid)",
            "Model/Player.lean is hand-written; tied to mpf/core/player.py, mpf/devices/{logic_blocks,shot,shot_group,"
-           "achievement,timer}.py, mpf/core/enable_disable_mixin.py and mpf/modes/game/code/game.py by correspondence"]
-ASSUMPTIONS = ["player variables hold ints or strings (no floats, no containers); `add` is only applied to int variables",
-               "no variable_player entry targets another player explicitly (`player:` option)",
-               "device keys are pairwise distinct and differ from `ball` / `extra_balls` (KeysOK)"]
+           "achievement,timer}.py, mpf/core/enable_disable_mixin.py, mpf/config_players/variable_player.py and "
+           "mpf/modes/game/code/game.py by correspondence"]
+ASSUMPTIONS = ["player variables hold ints or strings (no floats, no containers other than the devices' own state objects); "
+               "`add` is only applied to int variables",
+               "a variable_player entry with an explicit `player:` is meant to change that player (frame excludes exactly "
+               "that player for that request); with a player number that does not exist the code writes to the player "
+               "who is up - followed by the model, reported as an observation",
+               "device keys are pairwise distinct and differ from `ball` / `extra_balls` (KeysOK)",
+               "timers count up with a fixed tick interval; no two different timers of the machine are due at the same "
+               "instant (one timer, pause and tick never pending together)"]
 
 INT_VARS = ["pa", "score", "nv"]          # nv is not configured: created on first use
 ADD_VALUES = [1, 10, -3, 0, 100]
 SET_VALUES = [0, 5, 7, -2]
 STR_VALUES = ["abc", "xyz", "q"]
 TRACK = ["index", "number", "pa", "ps", "score", "nv", "mx", "ball", "extra_balls"]
+TICK_UNITS = 4          # tick_interval 500 ms = 4 time units of 1/8 s
+PAUSE_UNITS = 8         # the timed pause: 1 s
+P_ADD = [10, -3]        # variable_player entries with an explicit `player:` (1-4): add / set on pa and score
+P_SET = [5]
+P_VARS = ["pa", "score"]
+M_ADD = [1, 5]          # add_machine / set_machine on machine variable `mvar`
+M_SET = [0, 7]
 
 # the persisting devices of the game mode, in the order the model knows them (index = device number of the model):
 # (model line, player-variable key, control events in code order)
@@ -57,8 +83,12 @@ DEVICES = [
      ["ak_enable", "ak_start", "ak_complete", "ak_stop", "ak_disable", "ak_reset"]),
     ("ach achievements.a_stop 0", "achievements.a_stop",
      ["as_enable", "as_start", "as_complete", "as_stop", "as_disable", "as_reset"]),
-    ("timer m1_tm_tick 0", "m1_tm_tick", ["tm_add", "tm_jump"]),
+    ("timer m1_tm_tick 0 %(tm_run)d %(tm_end)d 4 8", "m1_tm_tick",
+     ["tm_add", "tm_jump", "tm_sub", "tm_start", "tm_stop", "tm_pause", "tm_pause0", "tm_reset", "tm_restart"]),
+    ("accrual ap_state 3", "ap_state", ["acc_0", "acc_1", "acc_2", "acc_reset", "acc_restart"]),
+    ("sequence sp_state 3", "sp_state", ["seq_0", "seq_1", "seq_2", "seq_reset", "seq_restart"]),
 ]
+TIMER = 7
 DEV_KEYS = [d[1] for d in DEVICES]
 DEV_EVENT_VARS = ["shot_sh1", "shot_sh2", "shot_sh3", "shot_shf_enabled", "shot_sh1_enabled", "m1_tm_tick"]
 
@@ -79,20 +109,31 @@ def vp_set(k, v):
     return "vp_set_%s_%s" % (k, str(v).replace("-", "m"))
 
 
+def vp_p(kind, n, k, v):
+    return "vpp_%s%d_%s_%s" % (kind, n, k, str(v).replace("-", "m"))
+
+
+def vp_m(kind, v):
+    return "vpm_%s_%s" % (kind, v)
+
+
 def build(cfg):
     main = ["modes:", "  - m1", "  - mv", "game:", "  balls_per_game: %d" % cfg["bpg"], "  max_players: 4",
             "switches:", "  s_start:", "    number: 1", "    tags: start",
             "player_vars:", "  pa:", "    initial_value: %d" % cfg["pa"], "    value_type: int",
             "  ps:", "    initial_value: %s" % cfg["ps"], "    value_type: str"]
-    mode = ["mode:", "  start_events: ball_started, start_m1", "  stop_events: stop_m1", "  priority: 200", "counters:",
+    mode = ["mode:", "  start_events: %sstart_m1" % ("ball_started, " if cfg["auto"] else ""), "  stop_events: stop_m1",
+            "  priority: 200", "counters:",
             "  cp:", "    count_events: hit_c", "    count_complete_value: %d" % cfg["goal"], "    persist_state: true",
             "    reset_on_complete: false", "    disable_on_complete: true",
             "  cn:", "    count_events: hit_c", "    count_complete_value: %d" % cfg["goal"], "    persist_state: false",
             "    reset_on_complete: false", "    disable_on_complete: true",
             "accruals:", "  ap:", "    events: acc_0, acc_1, acc_2", "    persist_state: true",
-            "    reset_on_complete: false", "    disable_on_complete: true",
+            "    reset_on_complete: false", "    disable_on_complete: true", "    reset_events: acc_reset",
+            "    restart_events: acc_restart",
             "sequences:", "  sp:", "    events: seq_0, seq_1, seq_2", "    persist_state: true",
-            "    reset_on_complete: false", "    disable_on_complete: true",
+            "    reset_on_complete: false", "    disable_on_complete: true", "    reset_events: seq_reset",
+            "    restart_events: seq_restart",
             "shot_profiles:", "  prof3:", "    loop: false", "    states:", "      - name: unlit", "      - name: lit",
             "      - name: done",
             "shots:",
@@ -107,9 +148,20 @@ def build(cfg):
                  "    complete_events: %s_complete" % pre, "    stop_events: %s_stop" % pre,
                  "    disable_events: %s_disable" % pre, "    reset_events: %s_reset" % pre,
                  "    restart_on_next_ball_when_started: %s" % restart]
-    mode += ["timers:", "  tm:", "    start_value: 0", "    control_events:",
+    mode += ["timers:", "  tm:", "    start_value: 0", "    tick_interval: 500ms",
+             "    start_running: %s" % ("true" if cfg["tm_run"] else "false")]
+    if cfg["tm_end"] >= 0:
+        mode += ["    end_value: %d" % cfg["tm_end"]]
+    mode += ["    control_events:",
              "      - event: tm_add", "        action: add", "        value: 2",
-             "      - event: tm_jump", "        action: jump", "        value: 7"]
+             "      - event: tm_jump", "        action: jump", "        value: 7",
+             "      - event: tm_sub", "        action: subtract", "        value: 1",
+             "      - event: tm_start", "        action: start",
+             "      - event: tm_stop", "        action: stop",
+             "      - event: tm_pause", "        action: pause", "        value: 1",
+             "      - event: tm_pause0", "        action: pause",
+             "      - event: tm_reset", "        action: reset",
+             "      - event: tm_restart", "        action: restart"]
     main = main   # (variable_player must live in a game mode: its own mode `mv`, which the harness never stops)
     mv = ["mode:", "  start_events: ball_started", "  priority: 150", "variable_player:"]
     for k in INT_VARS:
@@ -119,71 +171,127 @@ def build(cfg):
             mv += ["  %s:" % vp_set(k, v), "    %s:" % k, "      int: %d" % v, "      action: set"]
     for v in STR_VALUES:
         mv += ["  %s:" % vp_set("ps", v), "    ps:", "      string: %s" % v, "      action: set"]
+    for n in (1, 2, 3, 4):
+        for k in P_VARS:
+            for d in P_ADD:
+                mv += ["  %s:" % vp_p("add", n, k, d), "    %s:" % k, "      int: %d" % d, "      player: %d" % n]
+            for v in P_SET:
+                mv += ["  %s:" % vp_p("set", n, k, v), "    %s:" % k, "      int: %d" % v, "      action: set",
+                       "      player: %d" % n]
+    for d in M_ADD:
+        mv += ["  %s:" % vp_m("add", d), "    mvar:", "      int: %d" % d, "      action: add_machine"]
+    for v in M_SET:
+        mv += ["  %s:" % vp_m("set", v), "    mvar:", "      int: %d" % v, "      action: set_machine"]
     return "\n".join(main) + "\n", "\n".join(mode) + "\n", "\n".join(mv) + "\n"
 
 
 def gen_cfg(r):
     return {"bpg": r.choice([1, 2, 2, 3]), "goal": r.choice([2, 3, 4]), "pa": r.choice([0, 5, -1]),
-            "ps": r.choice(["abc", "xyz"])}
+            "ps": r.choice(["abc", "xyz"]), "auto": r.random() < 0.6, "tm_run": int(r.random() < 0.5),
+            "tm_end": r.choice([-1, -1, 12, 9]), "monitor": r.random() < 0.3}
 
 
 def gen_dev_op(r):
-    d = r.choice([0, 0, 1, 1, 1, 2, 3, 4, 4, 5, 5, 6, 6, 6, 7, 7])
+    d = r.choice([0, 0, 1, 1, 1, 2, 3, 4, 4, 5, 5, 6, 6, 6, 7, 7, 7, 7, 8, 8, 8, 9, 9, 9])
     n = len(DEVICES[d][2])
     if d in (5, 6):
         code = r.choice([0, 0, 1, 1, 2, 3, 4, 5])      # mostly along enable -> start -> complete / stop
     elif d == 1:
         code = r.choice([0, 0, 0, 1])
+    elif d == TIMER:
+        code = r.choice([0, 1, 2, 3, 3, 3, 4, 5, 5, 5, 6, 7, 8])
+    elif d == 8:
+        code = r.choice([0, 1, 2, 0, 1, 2, 0, 1, 2, 3, 4])
+    elif d == 9:
+        code = r.choice([0, 1, 2, 0, 1, 2, 3, 4]) if r.random() < 0.4 else ("next",)
     else:
         code = r.randrange(n)
     return ["dv", d, code]
 
 
-def gen_ops(r):
+def gen_ops(r, cfg=None):
+    auto = cfg is None or cfg["auto"]
     ops = [["start"]]
     for _ in range(r.choice([0, 1, 1, 2, 3])):
         ops.append(["addplayer"])
+    if not auto:
+        ops.append(["mstart"])
     n = r.randint(10, 60)
-    for _ in range(n):
-        k = r.random()
-        if k < 0.34:
-            ops.append(gen_dev_op(r))
-        elif k < 0.38:
-            ops.append(["rot"])
-        elif k < 0.41:
-            ops.append(["acc", r.randrange(3)])
-        elif k < 0.44:
-            ops.append(["seq", r.randrange(3)])
-        elif k < 0.52:
-            ops.append(["add", r.choice(INT_VARS), r.choice(ADD_VALUES)])
-        elif k < 0.57:
-            ops.append(["vset", r.choice(INT_VARS), r.choice(SET_VALUES)])
-        elif k < 0.60:
-            ops.append(["vset", "ps", r.choice(STR_VALUES)])
-        elif k < 0.65:
-            ops.append(["set", r.choice(INT_VARS), r.choice(SET_VALUES + [1, 1000])])
-        elif k < 0.68:
-            ops.append(["set", "ps", r.choice(STR_VALUES + [""])])
-        elif k < 0.72:
-            ops.append(["set", "mx", r.choice([0, 3, "a", "b", ""])])       # a variable whose type changes
-        elif k < 0.76:
-            ops.append(["extra"])
-        elif k < 0.79:
-            ops.append([r.choice(["mstop", "mstart", "mstart"])])
-        elif k < 0.86:
-            # a start request arrives at a lifecycle event of the ball end / turn change, optionally while that (queue)
-            # event is held by a handler; device ops right afterwards
+    seqpos = [0]
+
+    def dev_op():
+        o = gen_dev_op(r)
+        if o[2] == ("next",):           # walk the sequence in order (most of the time)
+            o[2] = seqpos[0] % 3
+            seqpos[0] += 1
+        return o
+
+    def turn_change():
+        k2 = r.random()
+        if k2 < 0.45:
             ops.append(["drainw", r.choice(POSITIONS), r.random() < 0.5])
             for _ in range(r.randint(0, 3)):
-                ops.append(gen_dev_op(r))
-        elif k < 0.94:
+                ops.append(dev_op())
+        else:
             ops.append(["drain"])
+        if not auto and r.random() < 0.7:
+            for _ in range(r.choice([0, 0, 1, 3])):
+                ops.append(["wait", r.choice([1, 3, 7, 8, 12, 20])])
+            ops.append(["mstart"])
+
+    for _ in range(n):
+        k = r.random()
+        if k < 0.30:
+            ops.append(dev_op())
+        elif k < 0.36:
+            # a timed pause (or a running timer) with the ball / the mode ending inside the pause window, then time passes
+            ops.append(["dv", TIMER, r.choice([3, 5, 5, 5, 8])])
+            for _ in range(r.choice([0, 0, 1, 2])):
+                ops.append(["wait", r.choice([1, 2, 3, 5])] if r.random() < 0.5 else dev_op())
+            if r.random() < 0.75:
+                if r.random() < 0.2:
+                    ops.append(["mstop"])
+                else:
+                    turn_change()
+                for _ in range(r.choice([1, 2, 3])):
+                    ops.append(["wait", r.choice([2, 4, 6, 7, 8, 9, 12, 16])])
+        elif k < 0.42:
+            ops.append(["wait", r.choice([1, 2, 3, 4, 5, 7, 8, 9, 15, 24])])
+        elif k < 0.45:
+            ops.append(["rot"])
+        elif k < 0.52:
+            ops.append(["add", r.choice(INT_VARS), r.choice(ADD_VALUES)])
+        elif k < 0.56:
+            ops.append(["vset", r.choice(INT_VARS), r.choice(SET_VALUES)])
+        elif k < 0.58:
+            ops.append(["vset", "ps", r.choice(STR_VALUES)])
+        elif k < 0.62:
+            ops.append([r.choice(["set", "seta"]), r.choice(INT_VARS), r.choice(SET_VALUES + [1, 1000])])
+        elif k < 0.64:
+            ops.append([r.choice(["set", "seta"]), "ps", r.choice(STR_VALUES + [""])])
+        elif k < 0.67:
+            ops.append(["set", "mx", r.choice([0, 3, "a", "b", ""])])       # a variable whose type changes
+        elif k < 0.71:
+            if r.random() < 0.5:
+                ops.append(["addp", r.choice([1, 1, 2, 2, 3, 4]), r.choice(P_VARS), r.choice(P_ADD)])
+            else:
+                ops.append(["setp", r.choice([1, 1, 2, 2, 3, 4]), r.choice(P_VARS), r.choice(P_SET)])
+        elif k < 0.73:
+            ops.append(["madd", r.choice(M_ADD)] if r.random() < 0.6 else ["mset", r.choice(M_SET)])
+        elif k < 0.77:
+            ops.append(["extra"])
+        elif k < 0.80:
+            ops.append([r.choice(["mstop", "mstart", "mstart"])])
+        elif k < 0.94:
+            turn_change()
         elif k < 0.96:
             ops.append(["addplayer"])
         elif k < 0.98:
             ops.append(["endgame"])
         else:
             ops.append(["start"])
+            if not auto:
+                ops.append(["mstart"])
     return ops
 
 
@@ -194,12 +302,14 @@ def tok(v):
         return "i%d" % v
     if isinstance(v, str):
         return "s" + v.encode().hex()
+    if isinstance(v, tuple) and len(v) == 3 and isinstance(v[0], (list, tuple)):
+        return "a%s/%d/%d" % ("".join("1" if x else "0" for x in v[0]), 1 if v[1] else 0, 1 if v[2] else 0)
     if isinstance(v, tuple) and len(v) == 3:
         return "b%s/%d/%d" % (v[0], 1 if v[1] else 0, 1 if v[2] else 0)
     return "?" + type(v).__name__
 
 
-def model_line(op, fired=None):
+def model_line(op, fired=None, held=False):
     k = op[0]
     if k in ("start", "addplayer", "drain", "endgame"):
         return k
@@ -208,8 +318,21 @@ def model_line(op, fired=None):
     if k == "mstart":
         return "modestart"
     if k == "drainw":
+        if fired in POS_AFTER:
+            # the mode starts where the request arrives; a held queue event there is released one time unit later
+            return "drainposthold" if held else "drainpost"
         return "drainpre" if fired in POS_BEFORE else "drain"
-    if k in ("set", "vset"):
+    if k == "wait":
+        return "wait %d" % op[1]
+    if k == "addp":
+        return "addp %d %s %d" % (op[1] - 1, op[2], op[3])
+    if k == "setp":
+        return "setp %d %s %s" % (op[1] - 1, op[2], tok(op[3]))
+    if k == "madd":
+        return "addmachine mvar %d" % op[1]
+    if k == "mset":
+        return "setmachine mvar %s" % tok(op[1])
+    if k in ("set", "vset", "seta"):
         return "set %s %s" % (op[1], tok(op[2]))
     if k == "add":
         return "add %s %d" % (op[1], op[2])
@@ -219,12 +342,12 @@ def model_line(op, fired=None):
         return "dev %d %d" % (op[1], op[2])
     if k == "rot":
         return "swap 2 3"
-    return None        # acc / seq: not in the model
+    raise InfraError("no model line for op %r" % (op,))
 
 
 def blk_tuple(st):
     v = st.value
-    return (list(v) if isinstance(v, list) else v, bool(st.enabled), bool(st.completed))
+    return (tuple(v) if isinstance(v, list) else v, bool(st.enabled), bool(st.completed))
 
 
 def stored(p, key):
@@ -241,8 +364,7 @@ def stored(p, key):
 
 FRESH = {"cp_state": (0, True, False), "shot_sh1": 0, "shot_sh2": 0, "shot_sh3": 0, "shot_shf_enabled": False,
          "achievements.a_keep": "disabled", "achievements.a_stop": "disabled", "m1_tm_tick": 0,
-         "ap_state": ([False] * 3, True, False), "sp_state": (0, True, False)}
-ORACLE_ONLY_KEYS = ["ap_state", "sp_state"]
+         "ap_state": ((False,) * 3, True, False), "sp_state": (0, True, False)}
 
 
 class Run:
@@ -255,6 +377,7 @@ class Run:
 
     def start(self):
         self.vm.start()
+        self.vm.align()         # dyadic grid: tick and pause deadlines are float-exact
         m = self.m = self.vm.machine
 
         def _add_ball(**kwargs):
@@ -271,8 +394,17 @@ class Run:
             def h2(_n=name, **kwargs):
                 self.dev_events.append((_n, kwargs.get("value"), kwargs.get("player_num")))
             m.events.add_handler("player_" + name, h2, priority=10 ** 6)
+        self.monitor_calls = []
+        if self.cfg.get("monitor"):
+            from mpf.core.player import Player
+
+            def mon(name, value, prev_value, change, player_num):
+                self.monitor_calls.append((name, value, prev_value, change, player_num))
+            m.register_monitor("player", mon)
+            Player.monitor_enabled = True
         self.arm = None         # (lifecycle event, hold) for the next drain
         self.fired = None
+        self.held = False
         self.binding = []       # (lifecycle event, mode active, mode.player is game.player) samples
         for ev in POSITIONS + ["ball_started"]:
             def lh(_ev=ev, queue=None, **kwargs):
@@ -285,10 +417,19 @@ class Run:
                     self.arm = None
                     self.fired = _ev
                     if hold and queue is not None:
+                        # held for exactly one time unit: the release (and with it the next ball start) stays on the grid
                         queue.wait()
-                        m.delay.add(ms=50, callback=queue.clear)
+                        self.held = True
+                        m.delay.add(ms=125, callback=queue.clear)
                     m.events.post("start_m1")
             m.events.add_handler(ev, lh, priority=2000000)
+        self.mode_started_at = None
+        self.in_pause_window = 0
+
+        def ms(**kwargs):
+            self.mode_started_at = vm_now()
+        vm_now = self.vm.now
+        m.events.add_handler("mode_m1_started", ms, priority=10 ** 6)
         self.cn = m.counters["cn"]
         self.devobj = {"cp_state": m.counters["cp"], "shot_sh1": m.shots["sh1"], "shot_sh2": m.shots["sh2"],
                        "shot_sh3": m.shots["sh3"], "shot_shf_enabled": m.shots["shf"],
@@ -297,11 +438,19 @@ class Run:
         return self
 
     def stop(self):
+        if self.cfg.get("monitor"):
+            from mpf.core.player import Player
+            Player.monitor_enabled = False          # a class attribute: must not leak into the next case
         self.vm.stop()
 
     def settle(self):
-        for _ in range(8):
+        """run everything that is ready at this instant (chains of events, mode starts / stops) - time does not move"""
+        loop = self.vm.tc.loop
+        for _ in range(400):
             self.vm.run()
+            if not loop._ready:
+                return
+        raise InfraError("the machine does not come to rest at one instant")
 
     def act(self, op):
         m, vm, tc = self.m, self.vm, self.vm.tc
@@ -309,19 +458,38 @@ class Run:
         self.events = []
         self.dev_events = []
         self.fired = None
+        self.held = False
         self.binding = []
+        self.monitor_calls = []
+        self.mode_started_at = None
+        self.t0 = self.vm.now()
+        if k in ("drain", "drainw", "mstop") and m.game is not None and m.game.player is not None and \
+                m.modes["m1"].active and m.timers["tm"].delay.check("pause"):
+            self.in_pause_window += 1           # the ball / the mode ends while a timed pause of the timer is pending
         try:
             if k in ("start", "addplayer"):
-                if k == "start" and m.game is not None:
-                    return None
-                if k == "addplayer" and m.game is None:
-                    return None
-                vm.hit_switch("s_start", 1)
-                vm.hit_switch("s_start", 0)
+                if (k == "start" and m.game is not None) or (k == "addplayer" and m.game is None):
+                    pass            # nothing to request - but time passes as after every op
+                else:
+                    vm.hit_switch("s_start", 1)
+                    vm.hit_switch("s_start", 0)
             elif m.game is None or m.game.player is None:
-                return None
+                pass
             elif k == "set":
-                m.game.player[op[1]] = op[2]
+                m.game.player[op[1]] = op[2]                # Player.__setitem__
+            elif k == "seta":
+                setattr(m.game.player, op[1], op[2])        # Player.__setattr__
+            elif k == "addp":
+                vm.post(vp_p("add", op[1], op[2], op[3]))
+            elif k == "setp":
+                vm.post(vp_p("set", op[1], op[2], op[3]))
+            elif k == "madd":
+                vm.post(vp_m("add", op[1]))
+            elif k == "mset":
+                vm.post(vp_m("set", op[1]))
+            elif k == "wait":
+                self.settle()
+                vm.advance(op[1] * 0.125)
             elif k == "vset":
                 vm.post(vp_set(op[1], op[2]))
             elif k == "add":
@@ -332,10 +500,6 @@ class Run:
                 vm.post(DEVICES[op[1]][2][op[2]])
             elif k == "rot":
                 vm.post("sg_rot")
-            elif k == "acc":
-                vm.post("acc_%d" % op[1])
-            elif k == "seq":
-                vm.post("seq_%d" % op[1])
             elif k == "mstop":
                 vm.post("stop_m1")
             elif k == "mstart":
@@ -357,6 +521,11 @@ class Run:
             self.settle()
             vm.advance(0.125)
             self.settle()
+            if self.held:
+                # a held queue event is released one time unit later (the chain of the turn change continues then): one
+                # more unit, so that the release is over when the op ends; the model sees the drain as one step
+                vm.advance(0.125)
+                self.settle()
             self.arm = None
             return None
         except CaseTimeout:
@@ -378,6 +547,11 @@ class Run:
             elif key.startswith("achievements."):
                 if d._player is not None:
                     out.append((key, d._player.number))
+            elif key == "m1_tm_tick" and not self.mode_on():
+                # Timer.device_removed_from_mode stops the timer but keeps self.player: a stale reference of a stopped
+                # timer, harmless as long as nothing of the timer survives the stop (time passing is checked by the
+                # isolation oracle); not a binding of a running device
+                self.stale_timer_player = d.player is not None
             elif d.player is not None:
                 out.append((key, d.player.number))
         return out
@@ -415,16 +589,19 @@ class Run:
             for k, v in p.vars.items():
                 if k in TRACK:
                     items[k] = tok(v)
-            had_ball = "ball" in p.vars
+            had_mode = "cp_state" in p.vars         # the game mode has run for this player
             for key in DEV_KEYS:
                 v = stored(p, key)
-                if v is None and had_ball and key.startswith("shot_sh") and not key.endswith("_enabled"):
+                if v is None and had_mode and key.startswith("shot_sh") and not key.endswith("_enabled"):
                     v = 0       # a shot's state variable is only written on its first change; reading it gives 0
                 if v is not None:
                     items[key] = tok(v)
             pl.append(",".join("%s=%s" % (k, items[k]) for k in sorted(items)))
-        return "cur=%s mode=%s ev=[%s] pl=[%s]" % (
-            self.cur() or "-", (self.cur() if self.mode_on() else None) or "-",
+        on = self.cur() is not None and self.mode_on()
+        rn = "".join("1" if (i == TIMER and self.m.timers["tm"].running) else "0" for i in range(len(DEVICES))) if on else "-"
+        mv = self.m.variables.get_machine_var("mvar")
+        return "cur=%s mode=%s run=%s mv=%s ev=[%s] pl=[%s]" % (
+            self.cur() or "-", (self.cur() if self.mode_on() else None) or "-", rn, "-" if mv is None else tok(mv),
             " ".join("%s:%s:%s:%s:%s" % (n, tok(v), tok(pv), tok(ch), num) for n, v, pv, ch, num in self.events),
             "|".join(pl))
 
@@ -432,6 +609,9 @@ class Run:
 USER_VARS = ["pa", "ps", "score", "nv", "mx", "extra_balls"]
 ACH = {0: {"disabled": "enabled", "started": "enabled"}, 1: {"enabled": "started", "stopped": "started"},
        2: {"started": "completed"}, 3: {"started": "stopped"}, 4: {"enabled": "disabled", "stopped": "disabled"}}
+# devices whose own-turn behaviour is judged by the model comparison only: the oracle takes what the player who is up has
+# stored as that player's state (what the property states about them - isolation, restore, fresh start - needs no more)
+ADOPT_KEYS = ["m1_tm_tick", "ap_state", "sp_state"]
 
 
 def ref_act(key, code, v, goal):
@@ -450,8 +630,8 @@ def ref_act(key, code, v, goal):
         return code == 0
     if key.startswith("achievements."):
         return "disabled" if code == 5 else ACH[code].get(v, v)
-    if key == "m1_tm_tick":
-        return v + 2 if code == 0 else 7
+    if key in ADOPT_KEYS:
+        return v
     raise KeyError(key)
 
 
@@ -470,17 +650,36 @@ class Oracle:
     def __init__(self, cfg):
         self.cfg = cfg
         self.shadow = []        # per player: dict of user variables
-        self.dev = []           # per player: device key -> shadow state (absent = never had a ball)
-        self.snap = []          # per player: oracle-only devices (accrual, sequence): last presented state
+        self.dev = []           # per player: device key -> shadow state (empty = the mode never ran for this player)
         self.bad = []
+        self.counts = {}
         self.turns = 0
-        self.mode_on = False    # the game mode runs (reference rule: from ball start to ball end / stop request)
+        self.mode_on = False    # the game mode runs (reference rule: from its start request to ball end / stop request)
 
     def fail(self, sig, **d):
         self.bad.append((sig, d))
 
+    def count(self, name, n=1):
+        self.counts[name] = self.counts.get(name, 0) + n
+
     def fresh_vars(self):
         return {"pa": self.cfg["pa"], "ps": self.cfg["ps"], "score": 0}
+
+    def load(self, q, run, op, first_turns):
+        """the game mode starts for player q (1-based): every device takes what that player stored (through its documented
+        load rule) or starts fresh - and must present exactly that"""
+        dv = self.dev[q - 1]
+        had = bool(dv)
+        for key in DEV_KEYS:
+            dv[key] = ref_load(key, dv[key]) if key in dv else FRESH[key]
+            got = run.presented(key)
+            if got != dv[key]:
+                self.fail("restore:device-state" if had and not first_turns else "fresh:device-state", op=op, device=key,
+                          player=q, presented=got, expected=dv[key])
+        self.count("loads_restoring" if had else "loads_fresh")
+        if run.cn._state is None or blk_tuple(run.cn._state) != (0, True, False):
+            self.fail("fresh:device-state", op=op, device="cn (persist_state: false)", player=q,
+                      presented=None if run.cn._state is None else blk_tuple(run.cn._state))
 
     def step(self, op, run, cur_before, ball_id_before, crashed):
         k = op[0]
@@ -492,11 +691,10 @@ class Oracle:
         expected_events = []
         # ---- game over / new game / new players
         if not players:
-            self.shadow, self.dev, self.snap = [], [], []
+            self.shadow, self.dev = [], []
         while len(self.shadow) < len(players):
             self.shadow.append(self.fresh_vars())
             self.dev.append({})
-            self.snap.append({})
             q = len(self.shadow) - 1
             # a new player starts from the configured initial values ...
             got = {v: players[q].vars.get(v) for v in ("pa", "ps", "score")}
@@ -504,21 +702,32 @@ class Oracle:
                 self.fail("fresh:initial-values", op=op, player=q + 1, got=got, expected=self.fresh_vars())
         if len(self.shadow) > len(players):
             n = len(players)
-            self.shadow, self.dev, self.snap = self.shadow[:n], self.dev[:n], self.snap[:n]
-        # ---- the request changes the current player's shadow only
-        if cur_before is not None and k in ("set", "vset", "add", "extra") and players:
-            sh = self.shadow[cur_before - 1]
-            name = "extra_balls" if k == "extra" else op[1]
+            self.shadow, self.dev = self.shadow[:n], self.dev[:n]
+        # ---- the request changes the shadow of the player who is up - or of the player it names explicitly
+        if cur_before is not None and k in ("set", "seta", "vset", "add", "extra", "addp", "setp") and players:
+            target = cur_before
+            if k in ("addp", "setp"):
+                if op[1] <= len(players):
+                    target = op[1]
+                    self.count("explicit_target_other" if target != cur_before else "explicit_target_self")
+                else:
+                    # variable_player logs "Failed to set player var" and then writes to the player who is up (followed
+                    # as the code has it; reported as an observation)
+                    self.count("explicit_target_missing_written_to_current")
+                name, arg = op[2], op[3]
+            else:
+                name, arg = ("extra_balls", 1) if k == "extra" else (op[1], op[2])
+            sh = self.shadow[target - 1]
             prev = sh.get(name, 0)
             new_entry = name not in sh
-            value = prev + (1 if k == "extra" else op[2]) if k in ("add", "extra") else op[2]
+            value = prev + arg if k in ("add", "extra", "addp") else arg
             sh[name] = value
             try:
                 change = value - prev
             except TypeError:
                 change = prev != value
             if change or new_entry:
-                expected_events.append((name, value, prev, change, cur_before))
+                expected_events.append((name, value, prev, change, target))
         if k in ("drain", "drainw") and cur_before is not None and players and self.shadow[cur_before - 1].get("extra_balls", 0):
             sh = self.shadow[cur_before - 1]
             expected_events.append(("extra_balls", sh["extra_balls"] - 1, sh["extra_balls"], -1, cur_before))
@@ -538,18 +747,21 @@ class Oracle:
         # that player (devices reload), a start request while nobody is up is refused
         if not players:
             self.mode_on = False
-        reload_for = None
+        loaded_now = False
         if k == "mstop":
             self.mode_on = False
         elif k == "mstart" and cur_before is not None and players and not self.mode_on:
             self.mode_on = True
-            reload_for = cur_before
-        elif k == "drainw" and run.fired in POS_BEFORE and cur_before is not None and players:
-            reload_for = cur_before         # restarted for the player whose ball just ended, stopped again at turn end
-        if reload_for is not None and self.dev[reload_for - 1]:
-            dvr = self.dev[reload_for - 1]
+            self.load(cur_before, run, op, False)
+            loaded_now = True
+        restarted_before = k == "drainw" and run.fired in POS_BEFORE and cur_before is not None and bool(players)
+        if restarted_before and self.dev[cur_before - 1]:
+            # restarted for the player whose ball just ended, stopped again at turn end (nothing to present any more)
+            dvr = self.dev[cur_before - 1]
             for key in DEV_KEYS:
                 dvr[key] = ref_load(key, dvr[key])
+        elif restarted_before:
+            self.dev[cur_before - 1].update({key: FRESH[key] for key in DEV_KEYS})
         # ---- device control events change the current player's shadow device state only
         if cur_before is not None and players and self.dev[cur_before - 1] and self.mode_on:
             dv = self.dev[cur_before - 1]
@@ -559,48 +771,53 @@ class Oracle:
                     dv[key] = ref_act(key, op[2], dv[key], self.cfg["goal"])
             elif k == "rot" and "shot_sh2" in dv and "shot_sh3" in dv:
                 dv["shot_sh2"], dv["shot_sh3"] = dv["shot_sh3"], dv["shot_sh2"]
-        # ---- a ball starts: every device takes what its player stored (through its documented load rule) or starts fresh
+        # ---- a ball starts
         ball_id = (cur, players[cur - 1].vars.get("ball"), players[cur - 1].vars.get("extra_balls", 0)) if cur else None
         new_ball = cur is not None and ((k == "start" and cur_before is None) or
                                         (k in ("drain", "drainw") and ball_id != ball_id_before))
         if new_ball:
             self.turns += 1
-            self.mode_on = True
-            dv = self.dev[cur - 1]
-            same_ball_reload = k == "drainw" and run.fired in POS_BEFORE and cur == cur_before and \
+            same_ball_restarted = restarted_before and cur == cur_before and \
                 players[cur - 1].vars.get("ball") == ball_id_before[1]
-            for key in DEV_KEYS:
-                if not same_ball_reload:        # (extra ball after a restart: the mode is still running, no reload)
-                    dv[key] = ref_load(key, dv[key]) if key in dv else FRESH[key]
-                got = run.presented(key)
-                if got != dv[key]:
-                    self.fail("restore:device-state" if len(dv) == len(DEV_KEYS) and self.turns > 1 and key in dv
-                              else "fresh:device-state", op=op, device=key, player=cur, presented=got, expected=dv[key])
-            for key in ORACLE_ONLY_KEYS:
-                want = self.snap[cur - 1].get(key, FRESH[key])
-                if run.presented(key) != want:
-                    self.fail("restore:device-state", op=op, device=key, player=cur, presented=run.presented(key),
-                              expected=want)
-            if run.cn._state is None or blk_tuple(run.cn._state) != (0, True, False):
-                self.fail("fresh:device-state", op=op, device="cn (persist_state: false)", player=cur,
-                          presented=None if run.cn._state is None else blk_tuple(run.cn._state))
-            # no two players share a mutable state object
-            ids = {}
-            for q, p in enumerate(players):
-                objs = [(d, p.vars.get(d)) for d in ("cp_state", "ap_state", "sp_state", "achievements")]
-                a = p.vars.get("achievements") or {}
-                objs += [("achievements." + n, e) for n, e in a.items()]
-                for d, o in objs:
-                    if o is not None:
-                        if id(o) in ids:
-                            self.fail("fresh:aliasing", op=op, device=d, players=[ids[id(o)], q + 1])
-                        ids[id(o)] = q + 1
+            if same_ball_restarted:
+                # extra ball after a restart: the mode is still running for the same player
+                self.mode_on = True
+                if not self.dev[cur - 1]:
+                    self.load(cur, run, op, self.turns <= 1)
+                    loaded_now = True
+            else:
+                self.mode_on = bool(self.cfg["auto"]) or (k == "drainw" and run.fired in POS_AFTER)
+                if self.mode_on:
+                    self.load(cur, run, op, self.turns <= 1)
+                    loaded_now = True
+        elif k in ("drain", "drainw") and players:
+            self.mode_on = False
         if players and cur is not None and run.mode_on() != self.mode_on:
             self.fail("mode-running-state", op=op, active=run.mode_on(), expected=self.mode_on)
             self.mode_on = run.mode_on()
-        if cur is not None and run.mode_on():
-            for key in ORACLE_ONLY_KEYS:
-                self.snap[cur - 1][key] = run.presented(key)
+        # ---- timer / accrual / sequence: what the player who is up has stored is that player's state
+        if cur is not None and self.dev[cur - 1] and not loaded_now:
+            for key in ADOPT_KEYS:
+                have = stored(players[cur - 1], key)
+                if have is not None:
+                    if have != self.dev[cur - 1].get(key):
+                        self.count("own_turn_change_" + key)
+                    self.dev[cur - 1][key] = have
+        # ---- no two players share a mutable state object (the state objects, the accrual's list, the achievement entries)
+        ids = {}
+        for q, p in enumerate(players):
+            objs = [(d, p.vars.get(d)) for d in ("cp_state", "ap_state", "sp_state", "achievements")]
+            ap = p.vars.get("ap_state")
+            if ap is not None and isinstance(ap.value, list):
+                objs.append(("ap_state.value", ap.value))
+            a = p.vars.get("achievements") or {}
+            objs += [("achievements." + n, e) for n, e in a.items()]
+            for d, o in objs:
+                if o is not None:
+                    if id(o) in ids:
+                        self.fail("fresh:aliasing", op=op, device=d, players=[ids[id(o)], q + 1])
+                    ids[id(o)] = q + 1
+        self.count("identity_checks", len(ids))
         # ---- every player's dictionary against its shadows (isolation: nobody else's changed)
         for q, p in enumerate(players):
             got = {v: p.vars[v] for v in USER_VARS if v in p.vars}
@@ -609,21 +826,21 @@ class Oracle:
                 self.fail("isolation:other-player-changed" if other else "own-vars-wrong", op=op, player=q + 1,
                           current_player=cur_before, got=got, expected=self.shadow[q])
                 self.shadow[q] = dict(got)
+            for name in USER_VARS:
+                if p.is_player_var(name) != (name in self.shadow[q]):
+                    self.count("is_player_var_differs")
             for key in DEV_KEYS:
                 have = stored(p, key)
                 if have is None and key in ("shot_sh1", "shot_sh2", "shot_sh3") and self.dev[q]:
                     have = 0
                 want = self.dev[q].get(key)
                 if have != want:
-                    self.fail("isolation:device-state-of-other-player" if other else "own-device-state-wrong", op=op,
+                    self.fail("isolation:device-state-of-other-player" if other or (cur is not None and q != cur - 1 and
+                                                                                    key in ADOPT_KEYS)
+                              else "own-device-state-wrong", op=op,
                               device=key, player=q + 1, current_player=cur, stored=have, expected=want)
                     if have is not None:
                         self.dev[q][key] = have     # resynchronise so that one defect is reported once
-            for key in ORACLE_ONLY_KEYS:
-                if cur is not None and q != cur - 1 and key in self.snap[q] and stored(p, key) != self.snap[q][key]:
-                    self.fail("isolation:device-state-of-other-player", op=op, device=key, player=q + 1,
-                              current_player=cur, stored=stored(p, key), expected=self.snap[q][key])
-                    self.snap[q][key] = stored(p, key)
         # ---- what the devices present during the turn is the current player's stored state
         if cur is not None and run.mode_on() and self.dev[cur - 1]:
             for key in DEV_KEYS:
@@ -645,6 +862,12 @@ class Oracle:
             if cur is not None and num not in ok_nums:
                 self.fail("event:device-var-for-wrong-player", op=op, event="player_" + name, value=repr(value),
                           player_num=num, current_player=cur)
+        # ---- the player monitor (when enabled) is told the same as the events (counted, not part of the property)
+        if self.cfg.get("monitor"):
+            mon = [c for c in run.monitor_calls if c[0] in TRACK]
+            self.count("monitor_calls", len(mon))
+            if [tuple(map(repr, c)) for c in mon] != [tuple(map(repr, e)) for e in run.events]:
+                self.count("monitor_differs_from_events")
 
 
 def execute(cfg, ops, model):
@@ -666,7 +889,7 @@ def execute_unguarded(cfg, ops, model):
     try:
         orc = Oracle(cfg)
         if model is not None:
-            model.ask("cfg %d 4 pa=%s ps=%s" % (cfg["bpg"], tok(cfg["pa"]), tok(cfg["ps"])))
+            model.ask("cfg %d 4 %d pa=%s ps=%s" % (cfg["bpg"], 1 if cfg["auto"] else 0, tok(cfg["pa"]), tok(cfg["ps"])))
             for line, _, _ in DEVICES:
                 if model.ask("device " + line % cfg) != "ok":
                     raise InfraError("model refused device " + line)
@@ -686,10 +909,12 @@ def execute_unguarded(cfg, ops, model):
                                   else "after" if run.fired else "not_reached")] = \
                     stats.get("start_" + ("before" if run.fired in POS_BEFORE else "window" if run.fired in POS_WINDOW
                                           else "after" if run.fired else "not_reached"), 0) + 1
-            line = model_line(op, run.fired)
-            if model is not None and line is not None:
+            if model is not None:
+                line = model_line(op, run.fired, run.held)
                 comps.append((line, run.obs(), model.ask(line)))
         stats["turns"] = orc.turns
+        stats["counts"] = orc.counts
+        orc.count("mode_end_inside_pause_window", run.in_pause_window)
         return orc.bad, comps, stats
     finally:
         run.stop()
@@ -713,6 +938,12 @@ def run_case(ctx, cfg, ops, model, sample=True):
     for k2, v2 in stats.items():
         if k2.startswith("start_") or k2 == "hangs":
             ctx.count(k2, v2)
+    for k2, v2 in stats.get("counts", {}).items():
+        ctx.count(k2, v2)
+    for o in ops:
+        if o[0] == "dv":
+            ctx.count("dev_%s" % DEVICES[o[1]][2][o[2]])
+    ctx.count("cfg_auto" if cfg["auto"] else "cfg_start_by_request")
     ctx.evaluated(case, stats["max_players"] >= 2 and stats["turns"] >= 4, sample=sample)
     for what, impl, mod in comps:
         ctx.compare(dict(case, at=what), impl, mod)
@@ -745,7 +976,8 @@ def run_range(ctx, lo, hi):
     try:
         for i in range(lo, hi):
             r = ctx.rng("case", i)
-            run_case(ctx, gen_cfg(r), gen_ops(r), model)
+            cfg = gen_cfg(r)
+            run_case(ctx, cfg, gen_ops(r, cfg), model)
             if i % 25 == 24:
                 gc.collect()        # stopped machines are cyclic garbage
             if len(ctx.failures) >= 3 or ctx.hist.get("further_failing_cases", 0) >= 20 or ctx.hist.get("hangs"):
@@ -756,12 +988,13 @@ def run_range(ctx, lo, hi):
 
 
 def run(ctx):
-    total = ctx.n(600, 8000)
-    if total <= 1000:
-        run_range(ctx, 0, total)
-    else:       # thorough tier / failing-input search: fresh worker processes, 300 cases each
-        from harness.common import pool_c20c11
-        pool_c20c11.run_parallel(ctx, "harness.corr." + ID, total)
+    total = ctx.n(800, 8000)
+    from harness.common import pool_c20c11
+    if total <= 1000:   # quick tier: four worker processes, 200 cases each
+        pool_c20c11.run_parallel(ctx, "harness.corr." + ID, total, chunk=200, workers=4)
+    else:               # thorough tier / failing-input search: fresh worker processes, 300 cases each
+        import os
+        pool_c20c11.run_parallel(ctx, "harness.corr." + ID, total, workers=int(os.environ.get("VERIF_WORKERS", "8")))
 
 
 def replay(ctx, rep):
